@@ -130,6 +130,12 @@ reg("C08",
     "Trusted: the reference tokenizer (C02). 9 recorded findings (raw-text handling by element name only, plaintext, namespaced attribute prefixes, boolean minimisation, doctype quoting, element children of RCDATA elements...). One defect repaired.",
     "DESIGN.md §3 C08")
 
+reg("C15",
+    "model-based round-trip property-based testing: conforming documents with generated <meta> declarations serialized under 40 output labels; the bytes parsed with no hints must report the label's encoding and give the tree predicted by a tree-level model of the meta injection applied to the unencoded serialization's tree",
+    "Exploration: documents with 0..3 extra meta elements (charset / http-equiv in all spellings, in head and body), > 1024 bytes before head, non-ASCII and astral text/attribute values x every label in a 40-label list that codecs and webencodings both accept x omission on/off x walker. documentEncoding must be the label's canonical encoding, the tree must equal model(tree of the unencoded serialization), and a declaration must sit inside head. Held on everything explored.",
+    "Comments and script/style text are constructed inside the codec's repertoire (no character references there). UTF-16 output is a recorded finding; noscript raw text (C07) is excluded by construction and counted.",
+    "DESIGN.md §3 C15")
+
 NOT_APPLICABLE = {}
 
 
